@@ -100,6 +100,11 @@ def run_false_stops(ck, ctx, rule):
         calls = sorted({callee_of(b.blocks[x]["term"]) for x in r if b.blocks[x]["term"] and b.blocks[x]["term"]["k"] == "call"})
         bad_calls = [c for c in calls if c.startswith(("work::", "load::", "trace::scope")) ]
         hits_none = bool(starts) and all(s in nones for s in starts)
+        # the test is unavoidable: nothing of the build machinery is reachable from the call without passing the switch on its result
+        tgt = t.get("target", -1)
+        around = cfg.reach_avoid([tgt], avoid_blocks=[sbb]) if tgt is not None and tgt >= 0 and tgt != sbb else set()
+        skipped = sorted({callee_of(b.blocks[x]["term"]) for x in around if x != bb and b.blocks[x]["term"] and b.blocks[x]["term"]["k"] == "call" and callee_of(b.blocks[x]["term"]).startswith(("work::", "load::", "trace::scope"))})
+        ck.ob(rule, key + "|tested-on-every-path", not skipped, "no path from Work::run's return reaches further build activity without testing its verdict (reachable around the test: %s)" % skipped, span=t["loc"], fn=b.nname)
         ck.ob(rule, key, hits_none and not bad_calls, "Work::run()? == false leads straight to `return Ok(None)` with no further build activity (calls after: %s)" % bad_calls, span=t["loc"], fn=b.nname)
         out.append((bb, t, sbb, tl, fl))
     return out
